@@ -1,8 +1,8 @@
 CONSTANTS
   PageSize = 4
-  AtomicPut = FALSE
+  AtomicPut = TRUE
   ClampConsumed = TRUE
-  MetaByPage = TRUE
+  MetaByPage = FALSE
   Threads = {t1, t2}
   Groups = {g1, g2}
   Lens = {2, 3}
